@@ -177,11 +177,13 @@ def replay_and_validate(chk, behaviours, label, prefixes, seed=None, isolate=Fal
     return res, runs
 
 
-def run_config(chk, cfgname, prefixes):
+def run_config(chk, cfgname, prefixes, repeat=1):
+    """repeat = 4: each behaviour runs once per salt mode of the harness (random / zero / ones / public values:
+    the mode follows the behaviour's position modulo 4)"""
     plans = model_check(chk, cfgname, prefixes=prefixes)
     if plans is None:
         return
-    beh = expand(plans)
+    beh = [b for b in expand(plans) for _ in range(repeat)]
     return replay_and_validate(chk, beh, cfgname, prefixes)
 
 
